@@ -120,17 +120,18 @@ let pseg_sexp = function
   | Ey.SIdx i -> L [A "I"; A ("i" ^ string_of_int (int_of_nat i))]
   | Ey.SAnchor a -> L [A "A"; s a]
 
-let rotate_handle (d : t) (next : t) (folded : t list) (dect : t list) (enct : t list) (layt : t list) : t =
+let cipher_of (dect : t list) (enct : t list) (layt : t list) =
   let dh = table3 "dec" dect and eh = table3 "enc" enct and lh = table3 "layout" layt in
   let dec (k : string) c = lookup3 "dec" dh k c in
   let enc (k : string) p = lookup3 "enc" eh k p in
   let layout f c =
     match lookup3 "layout" lh (match f with Ey.OString -> "string" | Ey.OBlock -> "block") c with
     | Some v -> v | None -> failwith "layout table holds none" in
-  let r = Ey.rotate_file enc dec layout "old" "new" (node_of_sexp d) (n_of_int (int_atom next))
-      (List.map (fun x -> n_of_int (int_atom x)) folded) in
-  (* canonical form: identities renumbered by first occurrence (fresh objects
-     compare equal), has_anchor_attr / tag of nodes dropped *)
+  (dec, enc, layout)
+
+(* canonical form of ONE document: identities renumbered by first occurrence
+   (fresh objects compare equal), has_anchor_attr / tag of nodes dropped *)
+let canon_doc (d : node) : t =
   let tbl = Hashtbl.create 16 in
   let num (o : n) =
     let k = int_of_n o in
@@ -146,13 +147,49 @@ let rotate_handle (d : t) (next : t) (folded : t list) (dect : t list) (enct : t
       L (h @ [L (List.map (fun (k, v) -> let ck = canon k in let cv = canon v in L [ck; cv]) kvs)])
     | NSeq (i, els) -> let h = head "S" i in L (h @ [L (List.map canon els)])
     | NSet (i, els) -> let h = head "T" i in L (h @ [L (List.map canon els)]) in
+  canon d
+
+(* the plaintexts actually sent to `eyaml encrypt` (a plaintext that itself
+   carries the marker is stored as it is, without a call) *)
+let rotated_sexp (st : Ey.rstate) : t =
+  L [A "rotated"; L (List.filter_map (fun ((_, p), _) ->
+      if Ey.is_eyaml_value (PStr p) then None else Some (s p)) st.Ey.r_log)]
+
+let rotate_handle (d : t) (next : t) (folded : t list) (dect : t list) (enct : t list) (layt : t list) : t =
+  let (dec, enc, layout) = cipher_of dect enct layt in
+  let r = Ey.rotate_file enc dec layout "old" "new" (node_of_sexp d) (n_of_int (int_atom next))
+      (List.map (fun x -> n_of_int (int_atom x)) folded) in
   outcome_sexp (fun (st : Ey.rstate) ->
-      L [L [A "doc"; canon st.Ey.r_doc]; L [A "changed"; bs st.Ey.r_changed];
+      L [L [A "doc"; canon_doc st.Ey.r_doc]; L [A "changed"; bs st.Ey.r_changed];
          L [A "exit"; A ("i" ^ string_of_int (int_of_nat st.Ey.r_exit))];
-         (* the plaintexts actually sent to `eyaml encrypt` (a plaintext that itself
-            carries the marker is stored as it is, without a call) *)
-         L [A "rotated"; L (List.filter_map (fun ((o, p), c) ->
-             if Ey.is_eyaml_value (PStr p) then None else Some (s p)) st.Ey.r_log)]]) r
+         rotated_sexp st]) r
+
+(* one whole invocation: `for yaml_file in args.yaml_files` *)
+let file_in_of = function
+  | A "notfile" -> Ey.FiNotFile
+  | A "unloadable" -> Ey.FiUnloadable
+  | L [A "doc"; d; next; L folded] ->
+    Ey.FiDoc (node_of_sexp d, n_of_int (int_atom next), List.map (fun x -> n_of_int (int_atom x)) folded)
+  | x -> failwith ("bad file " ^ to_string x)
+
+let file_res_sexp = function
+  | Ey.FrSkipped -> L [A "file"; A "skipped"]
+  | Ey.FrDone st ->
+    L [A "file"; L [A "doc"; canon_doc st.Ey.r_doc]; L [A "changed"; bs st.Ey.r_changed]; rotated_sexp st]
+
+(* exceptions at family granularity, as harness/c19.py prints them *)
+let end_sexp (o : nat outcome) : t =
+  L [A "end";
+     (match o with
+      | Ok ex -> L [A "exit"; A ("i" ^ string_of_int (int_of_nat ex))]
+      | Raise (YPE _) -> L [A "raise"; A "ype"]
+      | Raise e -> L [A "raise"; exn_sexp e]
+      | OutOfFuel -> L [A "outoffuel"])]
+
+let rotate_run_handle (files : t list) (dect : t list) (enct : t list) (layt : t list) : t =
+  let (dec, enc, layout) = cipher_of dect enct layt in
+  let o = Ey.rotate_main enc dec layout "old" "new" (List.map file_in_of files) in
+  L [A "run"; L (List.map file_res_sexp o.Ey.ro_files); end_sexp o.Ey.ro_end]
 
 let handle (cmd : string) (args : t list) : t option =
   match cmd, args with
@@ -160,6 +197,7 @@ let handle (cmd : string) (args : t list) : t option =
   | "setmain", [i; s; f] -> Some (out_sexp (Sc.set_main (setin_of i) (fault_of f) (fs_of s)))
   | "mergemain", [i; s; f] -> Some (out_sexp (Sc.merge_main (mergein_of i) (fault_of f) (fs_of s)))
   | "rotate", [d; next; L folded; L dect; L enct; L layt] -> Some (rotate_handle d next folded dect enct layt)
+  | "rotate-run", [L files; L dect; L enct; L layt] -> Some (rotate_run_handle files dect enct layt)
   | "eyaml-paths", [d] ->
     Some (L (List.map (fun p -> L (List.map pseg_sexp p)) (Ey.find_eyaml_paths (node_of_sexp d))))
   | "is-eyaml", [v] -> Some (bs (Ey.is_eyaml_value (pyval_of_sexp v)))
